@@ -1,0 +1,44 @@
+//go:build verif
+
+package vgirpc
+
+import (
+	"context"
+
+	"github.com/apache/arrow-go/v18/arrow"
+)
+
+// Verification hooks for C38 (build tag "verif"): the per-request egress
+// recorder the access log reads, and a registered method's params schema.
+// Add-only; nothing here is compiled into normal builds.
+
+// VerifC38WithEgress installs an egress recorder in ctx the way ServeHTTP
+// does. The returned function plays the end of the request: it sets the
+// response byte count and flushes the deferred records.
+func VerifC38WithEgress(ctx context.Context, requestID string, requestBytes, externalized int64) (context.Context, func(responseBytes int64)) {
+	rec := &egressRecorder{requestID: requestID, requestBytes: requestBytes}
+	rec.externalized.Store(externalized)
+	return withEgressRecorder(ctx, rec), func(responseBytes int64) {
+		rec.responseBytes.Store(responseBytes)
+		rec.flush()
+	}
+}
+
+// VerifC38Egress reports the egress recorder installed in ctx, if any.
+func VerifC38Egress(ctx context.Context) (requestID string, requestBytes, externalized int64, ok bool) {
+	rec := egressRecorderFrom(ctx)
+	if rec == nil {
+		return "", 0, 0, false
+	}
+	return rec.requestID, rec.requestBytes, rec.externalized.Load(), true
+}
+
+// VerifC38ParamsSchema returns the params schema a registered method
+// declares, or nil for an unknown method.
+func VerifC38ParamsSchema(s *Server, method string) *arrow.Schema {
+	info, found := s.methods[method]
+	if !found {
+		return nil
+	}
+	return info.ParamsSchema
+}
